@@ -34,7 +34,7 @@ def pIntC (cs : List Char) : Option Int :=
 def validRes (r : Nat) : Bool := allRes.contains r
 
 def validNf (r i : Nat) : Bool :=
-  if r = 0 then i ≤ 4 else if r = 1 then i ≤ 5 else if r = 2 ∨ r = 3 then i ≤ 3 else validRes r
+  if r = 0 then i ≤ 5 else if r = 1 then i ≤ 6 else if r = 2 ∨ r = 3 then i ≤ 3 else validRes r
 
 /-- split at the first ':' -/
 def splitColon (cs : List Char) : Option (List Char × List Char) :=
@@ -221,7 +221,7 @@ def pSection (kw : String) {α : Type} (f : String → Option α) (ts : List Str
     else none
   | _ => none
 
-def paths : List String := ["mint", "owner", "vp", "assert", "vault", "self", "acct"]
+def paths : List String := ["mint", "owner", "vp", "assert", "vault", "self", "acct", "pool", "poolmint"]
 
 def pCase (ts : List String) : Option Case :=
   match ts with
@@ -236,7 +236,7 @@ def pCase (ts : List String) : Option Case :=
           match pSection "ops" pOp ts with
           | some (ops, []) =>
             if !opsValid 0 ops then none
-            else if path = "self" ∧ !(match rule with | .allowAll => true | _ => false) then none
+            else if (path = "self" ∨ path = "poolmint") ∧ !(match rule with | .allowAll => true | _ => false) then none
             else some ⟨path, rule, nf, sim, ops⟩
           | _ => none
         | none => none
@@ -262,6 +262,16 @@ def MINTER : RoleKey := .named 0
 def METADATA_SETTER : RoleKey := .named 1
 def WITHDRAWER : RoleKey := .named 2
 def SECURIFY : RoleKey := .named 3
+def POOL_MANAGER : RoleKey := .named 4
+
+/-- role assignment of a pool whose manager rule is `rule` -/
+def poolRoles (rule : Rule) : RoleAssignment :=
+  { roles := fun k => if k = POOL_MANAGER then some rule else none, owner := .denyAll }
+
+/-- role assignment of the pool-unit resource of pool `pool`: minter = require(global_caller(pool)) -/
+def unitRoles (pool : Nat) : RoleAssignment :=
+  { roles := fun k => if k = MINTER then some (.prot (.basic (.require (.nf ⟨GC_BADGE, pool⟩)))) else none,
+    owner := .denyAll }
 
 /-- role assignment of the rule's target resource: minter = withdrawer = rule, owner = rule,
     no entry for the metadata roles -/
@@ -273,7 +283,7 @@ def accountRoles (rule : Rule) : RoleAssignment :=
   { roles := fun k => if k = SECURIFY then some rule else none, owner := rule }
 
 def runCase (c : Case) : String :=
-  let targetPath := c.path = "mint" ∨ c.path = "owner" ∨ c.path = "vault" ∨ c.path = "acct"
+  let targetPath := c.path = "mint" ∨ c.path = "owner" ∨ c.path = "vault" ∨ c.path = "acct" ∨ c.path = "pool"
   -- what a manifest can carry (SBOR depth of the encoded instruction)
   if (targetPath ∧ ruleDepth c.rule > 5) ∨ ruleDepth c.rule > 7 then "bad-op"
   else if targetPath ∧ !ruleWithinLimits MAXD MAXN c.rule then "rule-rejected"
@@ -299,6 +309,17 @@ def runCase (c : Case) : String :=
       showOutcome (outcomeOf (checkAccessRule z c.rule))
     else if c.path = "vp" then
       showOutcome (outcomeOf (checkAccessRule (verifyParentZone 1 txZone) c.rule))
+    else if c.path = "poolmint" then
+      showOutcome (checkPermission z (.roleList (unitRoles 6) 93 [MINTER]))
+    else if c.path = "pool" then
+      -- pool.contribute (pool_manager = rule) …
+      match checkPermission z (.roleList (poolRoles c.rule) 92 [POOL_MANAGER]) with
+      | .authorized =>
+        -- … then the pool (package 5, a global component: index 92) calls `mint` on its unit
+        -- resource: a global context change with the pool as global caller
+        let zm := createAuthZone (.method 5 (.global 92) z) true [] []
+        showOutcome (checkPermission zm (.roleList (unitRoles 92) 94 [MINTER]))
+      | o => showOutcome o
     else if c.path = "vault" then
       -- account.withdraw (owner role AllowAll) …
       match checkPermission z (.roleList (accountRoles .allowAll) 2 [.owner]) with
